@@ -70,6 +70,7 @@ type Tracer struct {
 	events   []Ev
 	keep     bool // keep the event list (sampled traces)
 	steps    int
+	nlex     int
 	nexts    int
 	zerosMax int
 	anomaly  []string // protocol anomalies (rule names)
@@ -78,6 +79,7 @@ type Tracer struct {
 	parked   chan string
 	sentinel bool // raise spinSentinel
 	returned bool
+	calls    int
 	retErr   int
 	leaks    []LeakInfo
 	edges    map[string]struct{} // fn|class|fn' over all parses of this process
@@ -110,11 +112,12 @@ func (t *Tracer) Begin(keep bool, stepCap int, sentinel bool) {
 	t.protos = t.protos[:0]
 	t.events = nil
 	t.keep = keep
-	t.steps, t.nexts, t.zerosMax = 0, 0, 0
+	t.steps, t.nexts, t.zerosMax, t.nlex = 0, 0, 0, 0
 	t.anomaly = nil
 	t.stepCap = stepCap
 	t.sentinel = sentinel
 	t.returned = false
+	t.calls = 0
 	t.leaks = nil
 	t.mu.Unlock()
 }
@@ -197,7 +200,7 @@ func (t *Tracer) hook(ev string, l interface{}, a, b int) {
 	}
 	x, ok := t.lexers[l]
 	if !ok {
-		if t.returned || (ev != "step" && ev != "return") {
+		if ev != "step" && ev != "return" {
 			// a scanner of an earlier parse finishing late (close after return)
 			t.stray++
 			t.mu.Unlock()
@@ -207,6 +210,7 @@ func (t *Tracer) hook(ev string, l interface{}, a, b int) {
 			// entry point returned without its scanner having run a step yet
 			t.lexers[l] = 1
 			t.protos = append(t.protos, &proto{})
+			t.nlex++
 			x = 1
 		} else if ev == "return" {
 			x = 1
@@ -214,6 +218,7 @@ func (t *Tracer) hook(ev string, l interface{}, a, b int) {
 			x = len(t.protos) + 1
 			t.lexers[l] = x
 			t.protos = append(t.protos, &proto{})
+			t.nlex++
 		}
 	}
 	p := t.protos[x-1]
@@ -325,6 +330,12 @@ func (t *Tracer) hook(ev string, l interface{}, a, b int) {
 		if t.keep {
 			t.events = append(t.events, Ev{'r', 1, a})
 		}
+		// soy.ParseGlobals calls parse.Expr once per line: the next entry-point
+		// call starts with fresh scanners (its trace is not shipped to TLC)
+		t.lexers = map[interface{}]int{}
+		t.protos = nil
+		t.calls++
+		t.keep = false
 	}
 	t.mu.Unlock()
 	if park != "" {
@@ -366,7 +377,7 @@ func parserFrame() string {
 func (t *Tracer) Snapshot() (steps, nexts, zeros, lexers int, anomalies []string, leaks []LeakInfo, events []Ev, returned bool) {
 	t.mu.Lock()
 	defer t.mu.Unlock()
-	return t.steps, t.nexts, t.zerosMax, len(t.protos), append([]string(nil), t.anomaly...),
+	return t.steps, t.nexts, t.zerosMax, t.nlex, append([]string(nil), t.anomaly...),
 		append([]LeakInfo(nil), t.leaks...), t.events, t.returned
 }
 
